@@ -22,6 +22,63 @@ def known_signatures():
     return json.load(open(p)).get("signatures", {})
 
 
+def alias_renamed_fields(prog):
+    """a struct / variant of the reviewed tree whose fields have the same types in the same positions but other
+    names has had fields renamed: every place projection and aggregate answers to the reviewed names (the rules name
+    fields: `halfmove_clock`, `stop_as_soon_as_possible`, ...)"""
+    p = os.path.join(VERIF, "tables", "known_functions.json")
+    if not os.path.exists(p):
+        return []
+    known = json.load(open(p)).get("adts", {})
+    ren = {}        # (adt key, position, new name) -> old name
+    out = []
+    for k, a in prog.adts.items():
+        old = known.get(k)
+        if not old or len(old) != len(a.get("variants", [])):
+            continue
+        for (ovn, ofs), v in zip(old, a["variants"]):
+            nfs = v.get("fields", [])
+            if len(ofs) != len(nfs) or [t for _, t in ofs] != [fl.get("ty") for fl in nfs]:
+                continue
+            for i, ((on, _), fl) in enumerate(zip(ofs, nfs)):
+                if fl.get("name") != on and on not in [x.get("name") for x in nfs]:
+                    ren[(k, i, fl.get("name"))] = on
+                    out.append("%s.%s -> %s" % (k.rsplit("::", 1)[-1], fl.get("name"), on))
+                    fl["name"] = on
+    if not ren:
+        return out
+
+    def fix_place(pl):
+        for e in pl.get("p", []):
+            if isinstance(e, dict) and "f" in e and (e.get("of"), e.get("f"), e.get("name")) in ren:
+                e["name"] = ren[(e.get("of"), e.get("f"), e.get("name"))]
+    for f in prog.fns.values():
+        for b in f["blocks"]:
+            for st in b["stmts"]:
+                if st["dst"] is not None:
+                    fix_place(st["dst"])
+                rv = st["rv"]
+                for a_ in rv.get("a", []):
+                    if a_.get("k") in ("copy", "move"):
+                        fix_place(a_["pl"])
+                if "place" in rv:
+                    fix_place(rv["place"])
+                if rv.get("op") == "agg" and rv.get("kind") == "adt" and rv.get("fields"):
+                    rv["fields"] = [ren.get((rv.get("adt"), i, n), n) for i, n in enumerate(rv["fields"])]
+            t = b["term"]
+            for a_ in (t.get("args") or []):
+                if a_.get("k") in ("copy", "move"):
+                    fix_place(a_["pl"])
+            for key_ in ("discr", "cond"):
+                if isinstance(t.get(key_), dict) and t[key_].get("k") in ("copy", "move"):
+                    fix_place(t[key_]["pl"])
+            if t.get("dest"):
+                fix_place(t["dest"])
+            if t.get("place"):
+                fix_place(t["place"])
+    return out
+
+
 def alias_renamed(prog, known):
     """a reviewed function that is gone while exactly one new function with the same signature appeared in the same
     impl / module has been renamed: the new function answers to the old name (rules are anchored in names)"""
@@ -99,6 +156,7 @@ def inline_new_helpers(prog):
     if known is None:
         return []
     prog.renamed = alias_renamed(prog, known)
+    prog.renamed_fields = alias_renamed_fields(prog)
     sigs = known_signatures()
     for k, f in prog.fns.items():
         want = sigs.get(k)
